@@ -15,13 +15,14 @@
 // AddSpan call and answers collect.ErrWouldBlock for chosen trace IDs.
 //
 // case header: responses
-// op:   req ep=<event|batch|otlp-http-traces|otlp-http-logs|otlp-grpc-traces|otlp-grpc-logs>
+// op:   req rt=<incoming|peer> ep=<event|batch|otlp-http-traces|otlp-http-logs|otlp-grpc-traces|otlp-grpc-logs>
 //           via=<mux|direct> enc=<json|msgpack|proto> ct=<ok|bad> ds=<ok|bad> key=<classic|es|none>
 //           env=<ok|fail|upok|up401|up500>
 //           body=<ok|gzip|zstd|readerr|badgzip|truncgzip|badzstd|garbage|truncated|oversize>
 //           evs=<letters|->   e empty data, d no data member, n no trace id, p trace owned by a peer,
 //                             l own trace (queue has room), f own trace (queue full), x probe
-// obs:  w=<H<code>|B<err|list:s:s..|empty|other>|G<grpc code>,…>  up=<i,…|-> peer=… coll=… ref=…
+// obs:  w=<H<code>|B<err|list:s:s..|empty|other>|G<grpc code>,…>  up=<i,…|-> peer=… coll=… ref=… cq=<in|peer|mixed|->
+//       (cq: the collector method the router called: AddSpan = in, AddSpanFromPeer = peer)
 //       (w: every WriteHeader/Write in order, net/http's implicit 200 made explicit; the other four:
 //       indices of the events seen by the upstream transmission, the peer transmission, accepted and
 //       refused by the collector, in arrival order; `?` = an event without the index marker)
@@ -83,6 +84,7 @@ type stubCollector struct {
 	mu       sync.Mutex
 	accepted []string
 	refused  []string
+	queues   map[string]bool // which of AddSpan ("in") / AddSpanFromPeer ("peer") were called
 }
 
 func idxOf(p *types.Payload) string {
@@ -99,9 +101,13 @@ func idxOf(p *types.Payload) string {
 	return "?"
 }
 
-func (c *stubCollector) add(sp *types.Span) error {
+func (c *stubCollector) add(sp *types.Span, queue string) error {
 	c.mu.Lock()
 	defer c.mu.Unlock()
+	if c.queues == nil {
+		c.queues = map[string]bool{}
+	}
+	c.queues[queue] = true
 	i := idxOf(&sp.Event.Data)
 	if strings.HasPrefix(sp.TraceID, "b2") { // the queue is full for these traces
 		c.refused = append(c.refused, i)
@@ -111,8 +117,8 @@ func (c *stubCollector) add(sp *types.Span) error {
 	return nil
 }
 
-func (c *stubCollector) AddSpan(sp *types.Span) error         { return c.add(sp) }
-func (c *stubCollector) AddSpanFromPeer(sp *types.Span) error { return c.add(sp) }
+func (c *stubCollector) AddSpan(sp *types.Span) error         { return c.add(sp, "in") }
+func (c *stubCollector) AddSpanFromPeer(sp *types.Span) error { return c.add(sp, "peer") }
 func (c *stubCollector) Stressed() bool                       { return false }
 func (c *stubCollector) GetStressedSampleRate(string) (uint, bool, string) {
 	return 0, false, ""
@@ -138,12 +144,16 @@ type world struct {
 }
 
 var (
-	theWorld *world
-	once     sync.Once
+	worlds = map[string]*world{}
 )
 
-func getWorld() *world {
-	once.Do(func() {
+// getWorld returns the world of the given router kind: "incoming" (RouterTypeIncoming, the
+// client-facing listener) or "peer" (RouterTypePeer, the listener other Refinery nodes forward to).
+func getWorld(kind string) *world {
+	if w, ok := worlds[kind]; ok {
+		return w
+	}
+	{
 		w := &world{}
 		w.authSrv = httptest.NewServer(http.HandlerFunc(func(rw http.ResponseWriter, req *http.Request) {
 			switch w.authMode {
@@ -183,14 +193,18 @@ func getWorld() *world {
 			Metrics:              &metrics.NullMetrics{},
 			Tracer:               noop.Tracer{},
 		}
-		w.router.SetType(types.RouterTypeIncoming)
+		if kind == "peer" {
+			w.router.SetType(types.RouterTypePeer)
+		} else {
+			w.router.SetType(types.RouterTypeIncoming)
+		}
 		w.router.LnS()
 		w.handler = route.VerifResponsesHandler(w.router)
 		w.traceSrv = route.NewTraceServer(w.router)
 		w.logsSrv = route.NewLogsServer(w.router)
-		theWorld = w
-	})
-	return theWorld
+		worlds[kind] = w
+		return w
+	}
 }
 
 func drainCh(ch chan *types.Event) []string {
@@ -544,7 +558,11 @@ func genOp(r *kit.Rng) string {
 	if es == "" {
 		es = "-"
 	}
-	return fmt.Sprintf("req ep=%s via=%s enc=%s ct=%s ds=%s key=%s env=%s body=%s evs=%s", ep, via, enc, ct, ds, key, env, body, es)
+	rt := "incoming"
+	if !strings.HasPrefix(ep, "otlp-grpc") && r.Chance(45) {
+		rt = "peer"
+	}
+	return fmt.Sprintf("req rt=%s ep=%s via=%s enc=%s ct=%s ds=%s key=%s env=%s body=%s evs=%s", rt, ep, via, enc, ct, ds, key, env, body, es)
 }
 
 func (comp) Gen(r *kit.Rng, maxLen int, tier string) kit.Case {
@@ -559,9 +577,9 @@ func (comp) Gen(r *kit.Rng, maxLen int, tier string) kit.Case {
 // ---------------------------------------------------------------------------------------------
 // runner
 
-type runner struct{ w *world }
+type runner struct{}
 
-func (comp) NewCase(h []string) kit.Runner { return &runner{w: getWorld()} }
+func (comp) NewCase(h []string) kit.Runner { return &runner{} }
 
 func (r *runner) Close() {}
 
@@ -574,16 +592,20 @@ func (r *runner) Do(op []string) (string, bool) {
 	if evs == "-" {
 		evs = ""
 	}
+	rt := kit.KV(op, "rt")
 	native := ep == "event" || ep == "batch"
+	if (rt != "incoming" && rt != "peer") || (rt == "peer" && strings.HasPrefix(ep, "otlp-grpc")) {
+		return "bad-op", true // the gRPC server only exists on the incoming router
+	}
 	if (ep == "event" && len(evs) != 1) || (ds == "bad" && via != "direct") || (!native && (via != "mux" || ds != "ok")) {
 		return "bad-op", true
 	}
-	w := r.w
+	w := getWorld(rt)
 
 	// reset the sinks and set up this request's world
 	drainCh(w.up.Events)
 	drainCh(w.peer.Events)
-	w.coll.accepted, w.coll.refused = nil, nil
+	w.coll.accepted, w.coll.refused, w.coll.queues = nil, nil, nil
 	w.shard.Other.TraceIDs = w.shard.Other.TraceIDs[:0]
 	for i := 0; i < len(evs); i++ {
 		if evs[i] == 'p' {
@@ -689,7 +711,16 @@ func (r *runner) Do(op []string) (string, bool) {
 	}
 	up := drainCh(w.up.Events)
 	pe := drainCh(w.peer.Events)
-	return fmt.Sprintf("w=%s up=%s peer=%s coll=%s ref=%s", wlog, lst(up), lst(pe), lst(w.coll.accepted), lst(w.coll.refused)), true
+	cq := "-"
+	switch {
+	case w.coll.queues["in"] && w.coll.queues["peer"]:
+		cq = "mixed"
+	case w.coll.queues["in"]:
+		cq = "in"
+	case w.coll.queues["peer"]:
+		cq = "peer"
+	}
+	return fmt.Sprintf("w=%s up=%s peer=%s coll=%s ref=%s cq=%s", wlog, lst(up), lst(pe), lst(w.coll.accepted), lst(w.coll.refused), cq), true
 }
 
 // ---------------------------------------------------------------------------------------------
